@@ -1206,6 +1206,8 @@ fn exec_while(song: &mut Song, t: &Token) -> bool {
                 song.get_message(MessageKind::LoopTooManyTimes),
                 song.flags.max_loop
             ));
+            // a BREAK/CONTINUE of the last pass belongs to this loop: do not leak it
+            if song.flags.break_flag == 1 || song.flags.break_flag == 2 { song.flags.break_flag = 0; }
             break;
         }
         // check break flag
@@ -1262,6 +1264,8 @@ fn exec_for(song: &mut Song, t: &Token) -> bool {
                 song.get_message(MessageKind::LoopTooManyTimes),
                 song.flags.max_loop
             ));
+            // a BREAK/CONTINUE of the last pass belongs to this loop: do not leak it
+            if song.flags.break_flag == 1 || song.flags.break_flag == 2 { song.flags.break_flag = 0; }
             break;
         }
         // inc
